@@ -41,6 +41,12 @@ type C18Script struct {
 	// it (a duplicate packet as ISO 13818-1 allows, a run of identical stuffing): still a
 	// packet of its own, delivered like any other
 	Repeat int `json:"repeat,omitempty"`
+	// Mode "nested": an adapter around an adapter around the sink; ReadFrom runs on the outer one
+	// and the reader itself, at its Inject[i]-th Read call, writes one packet of its own through
+	// the INNER adapter (a source that emits stuffing while its input is slow). Nest = "direct"
+	// (the inner adapter is handed to IOWriter as it is) | "func" (through PacketWriterFunc).
+	Inject []int  `json:"inject,omitempty"`
+	Nest   string `json:"nest,omitempty"`
 }
 
 type c18 struct{}
@@ -59,7 +65,7 @@ func (c18) Info() core.Info {
 			"after an injected reader error the sink log may be any prefix covering at least the packets fully delivered before the failing Read; it must never contain a misaligned, duplicated or reordered packet",
 			"a sink that returns a short count without error is outside the statement: only integrity and order of what is delivered are checked after it",
 		},
-		RequiredProbes: []string{"frag_unaligned", "one_byte", "data_with_eof", "partial_tail", "sink_err_first", "sink_err_mid", "reader_err_mid_packet", "via_io_copy", "write_not_multiple", "write_multi_packet", "closer", "adapter_reused", "adapter_reused_after_partial_tail", "reader_is_writerto", "bufio_reader_smaller_than_a_packet", "stream_with_repeated_packets", "sink_err_full_count", "reader_fails_with_unexpected_eof", "sink_fails_with_eof_value", "seekable_reader_already_partly_read", "empty_read_before_every_byte", "reader_fails_with_a_well_known_sentinel", "more_than_4gib_in_one_call", "sink_type_has_own_write_method"},
+		RequiredProbes: []string{"frag_unaligned", "one_byte", "data_with_eof", "partial_tail", "sink_err_first", "sink_err_mid", "reader_err_mid_packet", "via_io_copy", "write_not_multiple", "write_multi_packet", "closer", "adapter_reused", "adapter_reused_after_partial_tail", "reader_is_writerto", "bufio_reader_smaller_than_a_packet", "stream_with_repeated_packets", "sink_err_full_count", "reader_fails_with_unexpected_eof", "sink_fails_with_eof_value", "seekable_reader_already_partly_read", "empty_read_before_every_byte", "reader_fails_with_a_well_known_sentinel", "more_than_4gib_in_one_call", "sink_type_has_own_write_method", "reentrant_write_between_two_short_reads_of_one_packet"},
 	}
 }
 
@@ -118,6 +124,28 @@ func (c18) Gen(r *core.Rand, tier string) interface{} {
 	}
 	if s.Adapter == "IOWriteCloser" && r.Chance(1, 4) {
 		s.Sink.CloseErr = true
+	}
+	if r.Chance(1, 10) {
+		// two adapters stacked, the reader writes through the inner one while the outer one reads
+		s.Mode, s.Adapter, s.Nest = "nested", "IOWriter", r.PickS("direct", "direct", "func")
+		s.Sink = parties.SinkPlan{FailAt: -1}
+		if r.Chance(1, 4) {
+			s.Tail = r.Range(1, 187)
+		}
+		style := r.PickS("frag", "frag", "one", "mixed")
+		n := (s.Packets*188+s.Tail)/90 + 4
+		if style == "one" {
+			s.Default = "one"
+		} else {
+			s.Reads = parties.GenReadOps(r, r.Range(1, n), style, false)
+			if r.Bool() {
+				s.Default = "short"
+			}
+		}
+		for k := r.Range(1, 3); k > 0; k-- {
+			s.Inject = append(s.Inject, r.Range(1, len(s.Reads)+6))
+		}
+		return s
 	}
 	if r.Chance(1, 6) {
 		s.Repeat = r.Pick(1, 2, 2, 3)
@@ -270,10 +298,116 @@ func c18Huge(s *C18Script, c *core.Ctx) {
 	}
 }
 
+// c18Reentrant is a reader that, at scripted Read calls, first writes a packet of its own
+// through another adapter (which ends in the same sink) and then reads on.
+type c18Reentrant struct {
+	sr     *parties.SimReader
+	w      io.Writer
+	at     map[int]bool
+	calls  int
+	salt   int
+	wrote  []packet.Packet
+	badRes string
+	midPkt bool
+}
+
+func (r *c18Reentrant) Read(p []byte) (int, error) {
+	r.calls++
+	if r.at[r.calls] {
+		pkt := c18Packet(5000+len(r.wrote), r.salt+5)
+		if r.sr.Pos()%188 != 0 {
+			r.midPkt = true
+		}
+		n, err := r.w.Write(pkt[:])
+		if (n != 188 || err != nil) && r.badRes == "" {
+			r.badRes = fmt.Sprint(n, " ", err)
+		}
+		r.wrote = append(r.wrote, pkt)
+	}
+	return r.sr.Read(p)
+}
+
+func c18Nested(s *C18Script, c *core.Ctx) {
+	src, data := c18Data(s)
+	sink := parties.NewSimSink(parties.SinkPlan{FailAt: -1}, c)
+	inner := packet.IOWriter(sink)
+	var outer io.Writer
+	if pw, ok := inner.(packet.PacketWriter); ok && s.Nest != "func" {
+		outer = packet.IOWriter(pw)
+		c.Probe("adapter_stacked_directly_on_an_adapter")
+	} else {
+		outer = packet.IOWriter(packet.PacketWriterFunc(func(p *packet.Packet) (int, error) { return inner.Write(p[:]) }))
+	}
+	rf, isRF := outer.(io.ReaderFrom)
+	if !isRF {
+		c.Fail("reads_from_any_reader", "adapter_has_no_readfrom", fmt.Sprintf("%T", outer), "an io.ReaderFrom")
+		return
+	}
+	sr := parties.NewSimReader(data, s.Reads, c)
+	sr.DefaultKind = s.Default
+	rr := &c18Reentrant{sr: sr, w: inner, at: map[int]bool{}, salt: s.Salt}
+	for _, k := range s.Inject {
+		rr.at[k] = true
+	}
+	c.Log("c18 nested=%s packets=%d tail=%d inject=%v", s.Nest, s.Packets, s.Tail, s.Inject)
+	c.Unit("packets_offered", int64(s.Packets))
+	var n int64
+	var err error
+	if !c.Call("packetWriter.ReadFrom(outer of two stacked adapters)", func() { n, err = rf.ReadFrom(rr) }) {
+		return
+	}
+	c.Log("nested n=%d err=%v delivered=%d wrote=%d reads=%d", n, err, len(sink.Log), len(rr.wrote), rr.calls)
+	c.Unit("read_calls", int64(rr.calls))
+	if len(rr.wrote) > 0 {
+		c.Probe("reader_wrote_through_the_inner_adapter")
+		c.Fault("reentrant_write_during_read")
+	}
+	if rr.midPkt {
+		c.Probe("reentrant_write_between_two_short_reads_of_one_packet")
+	}
+	if rr.badRes != "" {
+		c.Fail("full_length", "nested:inner_write_result_wrong", rr.badRes, "188 <nil>")
+		return
+	}
+	// the sink saw the stream's packets in order and the reader's own packets in order,
+	// interleaved somehow, each of them byte for byte
+	a, b := 0, 0
+	for k := range sink.Log {
+		switch {
+		case a < len(src) && sink.Log[k] == src[a]:
+			a++
+		case b < len(rr.wrote) && sink.Log[k] == rr.wrote[b]:
+			b++
+		default:
+			c.Fail("unmodified", "nested:delivered_bytes_not_the_next_packet_of_either_source", k, "the stream's or the reader's next packet")
+			return
+		}
+	}
+	if a != s.Packets || b != len(rr.wrote) {
+		c.Fail("each_complete_packet", "nested:complete_packets_not_delivered", []int{a, b}, []int{s.Packets, len(rr.wrote)})
+		return
+	}
+	if n != int64(188*s.Packets) {
+		c.Fail("bytes_delivered", "nested:count_mismatch", n, 188*s.Packets)
+		return
+	}
+	if s.Tail > 0 && err != gots.ErrInvalidPacketLength {
+		c.Fail("partial_tail", "nested:partial_tail_not_reported", err, "ErrInvalidPacketLength")
+		return
+	}
+	if s.Tail == 0 && err != nil {
+		c.Fail("no_error", "nested:spurious_error", err, nil)
+	}
+}
+
 func (c18) Exec(script interface{}, c *core.Ctx) {
 	s := script.(*C18Script)
 	if s.Mode == "huge" {
 		c18Huge(s, c)
+		return
+	}
+	if s.Mode == "nested" {
+		c18Nested(s, c)
 		return
 	}
 	src, data := c18Data(s)
@@ -727,7 +861,25 @@ func (c18) Shrink(script interface{}) []interface{} {
 		n := *s
 		n.Cuts = append([]int(nil), s.Cuts...)
 		n.Reads = append([]parties.ReadOp(nil), s.Reads...)
+		n.Inject = append([]int(nil), s.Inject...)
 		return &n
+	}
+	for i := range s.Inject {
+		if len(s.Inject) > 1 {
+			n := cp()
+			n.Inject = append(n.Inject[:i], n.Inject[i+1:]...)
+			out = append(out, n)
+		}
+		if s.Inject[i] > 1 {
+			n := cp()
+			n.Inject[i]--
+			out = append(out, n)
+		}
+	}
+	if s.Nest == "func" {
+		n := cp()
+		n.Nest = "direct"
+		out = append(out, n)
 	}
 	if s.Repeat > 0 {
 		n := cp()
